@@ -2,6 +2,7 @@ package lint
 
 import (
 	"fmt"
+	"go/constant"
 	"go/token"
 	"go/types"
 	"os"
@@ -1180,6 +1181,98 @@ func (m *Model) ruleREGISTRY(r *Results) {
 	}
 	if nClose == 0 {
 		r.undecided(rule, "Close", "-", "no bucket method releases the registry reference")
+	}
+	// the closed flag is tested and set in ONE critical section: between the read that decides
+	// whether to release and the store that marks the handle closed the bucket mutex is not let go
+	// (otherwise two overlapping Close calls both see "open" and both release)
+	if a.ClosedField != nil && a.BucketMutex != nil {
+		nTS := 0
+		for _, fn := range m.Funcs {
+			var stores []*ssa.Store
+			var loads []*ssa.UnOp
+			for _, b := range fn.Blocks {
+				for _, ins := range b.Instrs {
+					switch x := ins.(type) {
+					case *ssa.Store:
+						if fa, ok := x.Addr.(*ssa.FieldAddr); ok && fieldOf(fa) == a.ClosedField {
+							if cst, ok := x.Val.(*ssa.Const); ok && cst.Value != nil && constant.BoolVal(cst.Value) {
+								if _, fresh := fa.X.(*ssa.Alloc); !fresh {
+									stores = append(stores, x)
+								}
+							}
+						}
+					case *ssa.UnOp:
+						if _, f, ok := fieldLoad(x); ok && f == a.ClosedField {
+							loads = append(loads, x)
+						}
+					}
+				}
+			}
+			if len(stores) == 0 {
+				continue
+			}
+			root := fn
+			for root.Parent() != nil {
+				root = root.Parent()
+			}
+			// only the functions that mark a handle closed on behalf of a release (Close), not constructors
+			releases := func(f *ssa.Function) bool { return m.reachableLocal(f)[unreg] || m.staticallyCalls(f, unreg) }
+			okRoot := releases(root)
+			if !okRoot {
+				// a helper (markClosed) of a function that releases
+				for _, cl := range m.staticCallersOf(root) {
+					cr := cl.Parent()
+					for cr.Parent() != nil {
+						cr = cr.Parent()
+					}
+					if releases(cr) {
+						okRoot = true
+					}
+				}
+			}
+			if !okRoot {
+				continue
+			}
+			for _, st := range stores {
+				nTS++
+				okTS := false
+				for _, ld := range loads {
+					// walk from the load to the store; an Unlock of the bucket mutex on the way breaks the section
+					seen := map[*ssa.BasicBlock]bool{}
+					var walk func(b *ssa.BasicBlock, from int) bool
+					walk = func(b *ssa.BasicBlock, from int) bool {
+						for i := from; i < len(b.Instrs); i++ {
+							if b.Instrs[i] == ssa.Instruction(st) {
+								return true
+							}
+							if c, ok := b.Instrs[i].(ssa.CallInstruction); ok {
+								if _, isDefer := c.(*ssa.Defer); !isDefer {
+									if op, ok := m.lockOpOf(c); ok && !op.Acquire && op.Lock.Field == a.BucketMutex {
+										return false
+									}
+								}
+							}
+						}
+						for _, s := range b.Succs {
+							if !seen[s] {
+								seen[s] = true
+								if walk(s, 0) {
+									return true
+								}
+							}
+						}
+						return false
+					}
+					if walk(ld.Block(), indexIn(ld.Block(), ld)+1) {
+						okTS = true
+					}
+				}
+				r.check(okTS, rule, m.declName(root)+" / closed flag tested and set in one critical section", m.instrPos(st), "the flag is set in the critical section that read it", "the handle is marked closed in a different critical section than the one that tested the flag (or without testing it): two overlapping Close calls of one handle both find it open and both release the registry's reference, shutting the store down under the other handles")
+			}
+		}
+		if nTS == 0 {
+			r.undecided(rule, "closed flag", "-", "no function marks a handle closed")
+		}
 	}
 	// a bucket method that deletes the bucket's files first shuts the shared store down,
 	// unconditionally: other handles must not keep working on a deleted store
